@@ -81,4 +81,18 @@ theorem run_calls_eq_steps (body : Phase → Store → Boxed) (ps : List Phase)
     simp only [fortranRuns, interpSteps, run_call_eq_interpreter_step body ps s hp]
     exact run_calls_eq_steps body ps hclosed n _ (hclosed s hp)
 
+/-- **One `run()` call = one step of the WRITTEN program** (C01's bridge): for every method the
+    builder accepts (its own statements off the builder's flag names) and every admissible order
+    of the phase subroutine's statements, the call leaves the persistent variables and the next
+    phase that carrying out the builder calls block by block leaves -/
+theorem run_call_eq_written_step (F : Funs) (ps : List Phase) (sched : Phase → List Nat)
+    (hs : ∀ ph ∈ ps, C01.Admissible ph.ops (sched ph)) (hw : ∀ ph ∈ ps, C01.WellBuilt ph.ops)
+    (s : RunState) (hp : (findPhase ps s.next).isSome) :
+    fortranRun (fun ph σ => { σ := flatExec F (flatStmts ph.ops) (sched ph) σ }) ps s =
+      some (stepRef F ps s).2.2 := by
+  rw [run_call_eq_interpreter_step _ ps s hp]
+  have := C01.step_backend_eq_written F ps sched hs hw s
+  unfold stepFlat at this
+  rw [this]
+
 end Dagrt.C03
